@@ -105,9 +105,8 @@ func (dtm *DataTransmissionMessage) Unmarshal(r io.Reader) error {
 
 	// TODO: Transfer Extension Items
 	if transferExtLen > 0 {
-		transferExtBuff := make([]byte, transferExtLen)
-
-		if _, err := io.ReadFull(r, transferExtBuff); err != nil {
+		// The items are skipped; do not allocate the announced length for them.
+		if _, err := io.CopyN(ioutil.Discard, r, int64(transferExtLen)); err != nil {
 			return err
 		}
 	}
